@@ -58,6 +58,7 @@ func (b *Backend) QueueLeaf(_ context.Context, req *trillian.QueueLeafRequest, _
 // InstCfg is the admission configuration of a log, as an operator writes it.
 type InstCfg struct {
 	RootsPEM        []byte
+	RootFiles       [][]byte // when present: the trusted pool as several roots files, read in this order (RootsPEM is ignored)
 	Start, Limit    *time.Time
 	RejectExpired   bool
 	RejectUnexpired bool
@@ -105,18 +106,52 @@ func NewInstance(dir string, c InstCfg) (*Inst, error) {
 	instSeq++
 	n := instSeq
 	instMu.Unlock()
-	rootsFile := filepath.Join(dir, fmt.Sprintf("roots-%d.pem", n))
-	if err := os.WriteFile(rootsFile, c.RootsPEM, 0o644); err != nil {
+	files := c.RootFiles
+	if len(files) == 0 {
+		files = [][]byte{c.RootsPEM}
+	}
+	var rootsFiles []string
+	for i, f := range files {
+		name := filepath.Join(dir, fmt.Sprintf("roots-%d-%d.pem", n, i))
+		if err := os.WriteFile(name, f, 0o644); err != nil {
+			return nil, err
+		}
+		rootsFiles = append(rootsFiles, name)
+	}
+	v, err := Validated(c, n, rootsFiles)
+	if err != nil {
 		return nil, err
 	}
+	be := &Backend{}
+	opts := ctfe.InstanceOptions{
+		Validated:     v,
+		Client:        be,
+		Deadline:      10 * time.Second,
+		MetricFactory: monitoring.InertMetricFactory{},
+		RequestLog:    &ctfe.DefaultRequestLog{},
+	}
+	i, err := ctfe.NewInstanceForVerif(context.Background(), opts, nil, nil, nil)
+	if err != nil {
+		return nil, fmt.Errorf("NewInstanceForVerif: %w", err)
+	}
+	for _, f := range rootsFiles { // the pool has been read
+		os.Remove(f)
+	}
+	return &Inst{I: i, BE: be}, nil
+}
+
+// Validated writes the configuration of a log the way an operator does (configpb.LogConfig) and has the front end
+// validate it: the result carries what an instance is set up with (key usages, NotAfter bounds).
+func Validated(c InstCfg, logID int64, rootsFiles []string) (*ctfe.ValidatedLogConfig, error) {
+	setup()
 	pk, err := anypb.New(&keyspb.PrivateKey{Der: logKeyDER})
 	if err != nil {
 		return nil, err
 	}
 	cfg := &configpb.LogConfig{
-		LogId:            n,
+		LogId:            logID,
 		Prefix:           "verif",
-		RootsPemFile:     []string{rootsFile},
+		RootsPemFile:     rootsFiles,
 		PrivateKey:       pk,
 		RejectExpired:    c.RejectExpired,
 		RejectUnexpired:  c.RejectUnexpired,
@@ -134,20 +169,7 @@ func NewInstance(dir string, c InstCfg) (*Inst, error) {
 	if err != nil {
 		return nil, fmt.Errorf("ValidateLogConfig: %w", err)
 	}
-	be := &Backend{}
-	opts := ctfe.InstanceOptions{
-		Validated:     v,
-		Client:        be,
-		Deadline:      10 * time.Second,
-		MetricFactory: monitoring.InertMetricFactory{},
-		RequestLog:    &ctfe.DefaultRequestLog{},
-	}
-	i, err := ctfe.NewInstanceForVerif(context.Background(), opts, nil, nil, nil)
-	if err != nil {
-		return nil, fmt.Errorf("NewInstanceForVerif: %w", err)
-	}
-	os.Remove(rootsFile) // the pool has been read
-	return &Inst{I: i, BE: be}, nil
+	return v, nil
 }
 
 // Post submits a chain to "add-chain" or "add-pre-chain"; it returns the HTTP status, the body and, when the front
